@@ -68,7 +68,7 @@ def run(prop, tier, seed, plan, replay_dir=None, merge=False, full=False, only_l
                   + [(sd, "sched", "SchedTrace", nsched - nsched // 3, ["-mode", "sched"]) for sd in seeds]
                   + [(sd, "sched2", "SchedTrace_cap2", nsched // 3, ["-mode", "sched", "-cap", "2"]) for sd in seeds])   # the same with a buffered Watcher
         if only_longadd:      # only the programs in which Close meets a long-running Add (judged by LinTrace and the fresh-Watcher census)
-            passes = [(sd, "longadd", "LinTrace", 40 if tier == "quick" else 400, ["-mode", "longadd"]) for sd in seeds]
+            passes = [(sd, "longadd", "LinTrace", 80 if tier == "quick" else 600, ["-mode", "longadd"]) for sd in seeds]
         if replay_dir:
             which = meta.get("pass", "lin")
             passes = [x for x in passes if x[1] == which]
